@@ -283,6 +283,23 @@ func runC07(w *W) {
 		run(body, "corpus:"+s.Test+"#"+itoa(s.Index))
 	}
 
+	// (1a) the same queries with their string / number / identifier leaves replaced by difficult ones (p_c04.go leafSubstitute)
+	nLeaf := w.pickN(6000, 120000)
+	for k := 0; k < nLeaf; k++ {
+		idx, mine := w.Case()
+		if !mine {
+			continue
+		}
+		r := NewRng(w.Seed, uint64(idx), 77)
+		body := stripStmtEnd(stmts[r.Intn(len(stmts))].Text)
+		if !startsWithSelect(body) || len(body) > 3000 {
+			continue
+		}
+		if v, ok := leafSubstitute(r, body); ok {
+			st.c07Query(idx, v, "leaf-subst")
+		}
+	}
+
 	// (1b) deep but narrow queries: embedded, their indentation crosses 128 / 256 / 512 / 1024 columns
 	for _, depth := range []int{16, 30, 36, 40, 70, 75, 140, 150} {
 		q := "SELECT 1"
